@@ -66,9 +66,20 @@ fn judge_refusal<T: std::fmt::Debug>(
                         }
                         for x in domain_of(&name) {
                             acc.transitions += 1;
-                            if !(a..=b).contains(&x) && accepts(&name, x) {
-                                acc.violation(op, &format!("message-range-excludes-accepted-{}", name.replace(' ', "_")), case.clone(), format!("range containing accepted {}={}", name, x), msg.clone());
-                                break;
+                            if (a..=b).contains(&x) {
+                                continue;
+                            }
+                            // the probe is a real constructor / setter call: it must not panic either
+                            match call(std::panic::AssertUnwindSafe(|| accepts(&name, x))) {
+                                Out::Val(true) => {
+                                    acc.violation(op, &format!("message-range-excludes-accepted-{}", name.replace(' ', "_")), case.clone(), format!("range containing accepted {}={}", name, x), msg.clone());
+                                    break;
+                                }
+                                Out::Val(false) => {}
+                                other => {
+                                    acc.violation(op, "panic-for-another-value-of-the-named-parameter", json!({"probe_of": case, "parameter": name, "value": x.to_string()}), "Ok or Err(OutOfRange)".into(), other.show());
+                                    break;
+                                }
                             }
                         }
                     }
